@@ -11,7 +11,9 @@ import (
 	"encoding/json"
 	"errors"
 	"sync"
+	"sync/atomic"
 
+	"github.com/33cn/chain33/queue"
 	drivers "github.com/33cn/chain33/system/dapp"
 	"github.com/33cn/chain33/types"
 )
@@ -168,6 +170,10 @@ func upsert(kvs []*types.KeyValue, k, v []byte) []*types.KeyValue {
 	return append(kvs, &types.KeyValue{Key: k, Value: v})
 }
 
+// EnvFaultArmed > 0 makes "envfail" instructions return a queue timeout;
+// EnvFaultHits counts how often that happened.
+var EnvFaultArmed, EnvFaultHits int32
+
 // Exec interprets the exec-phase program.
 func (v *vm) Exec(tx *types.Transaction, index int) (*types.Receipt, error) {
 	p, err := decodeProg(tx)
@@ -220,6 +226,14 @@ func (v *vm) Exec(tx *types.Transaction, index int) (*types.Receipt, error) {
 			logs = append(logs, r.Logs...)
 		case "fail":
 			return nil, errFail
+		case "envfail":
+			// a transient fault of the executor's environment (what a contract gets
+			// from the node API when the bus times out): only while the harness has
+			// armed it, otherwise the instruction does nothing
+			if atomic.LoadInt32(&EnvFaultArmed) > 0 {
+				atomic.AddInt32(&EnvFaultHits, 1)
+				return nil, queue.ErrQueueTimeout
+			}
 		case "panic":
 			panic("simvm: program panics")
 		}
